@@ -113,6 +113,8 @@ fn interleaving_hash(h: &History) -> u64 {
             Kind::Stuck => "Sk",
             Kind::StepLimit => "SL",
             Kind::Note(_) => "No",
+            Kind::MockAnswer { .. } => "MA",
+            Kind::MockFailure { .. } => "MF",
         };
         for b in tag.as_bytes() {
             x ^= *b as u64;
